@@ -1,4 +1,6 @@
+pub mod c14;
 pub mod generic;
+pub mod mt;
 
 use crate::out::Report;
 
@@ -149,5 +151,21 @@ pub fn run(name: &str, args: &Args) -> Option<Report> {
         }
         return Some(rep);
     }
-    None
+    match name {
+        "c14" => {
+            // Pure code: a panic is a finding of C14.
+            let (seed, start, iters) = (args.seed, args.start, args.iters);
+            guarded(&mut rep, name, "C14", seed, start, |rep| c14::run(seed, start, iters, rep));
+        }
+        "c04" => {
+            if args.start == 0 {
+                guarded(&mut rep, name, "C04", args.seed, 0, |rep| mt::c04_wrap_sweep(args.seed, rep));
+            }
+            for i in args.start..args.start + args.iters {
+                guarded(&mut rep, name, "C04", args.seed, i, |rep| mt::c04_schedule(args.seed, i, rep));
+            }
+        }
+        _ => return None,
+    }
+    Some(rep)
 }
